@@ -131,6 +131,13 @@ def is_plain_status(cr, body, place):
     return ty is not None and ty.adt_path() == STATUS
 
 
+def helper_to_inline(a, st, callee):
+    key = callee.get("key", "")
+    fn = a.cr.fns.get(key) if callee.get("local") else None
+    return bool(fn is not None and AIM.is_private_fn(fn) and key != st.frames[0].fkey and fn.get("file") == st.frames[0].body.get("file")
+                and key not in [fr.fkey for fr in st.frames] and len(st.frames) < a.max_depth)
+
+
 class StatusHooks(AIM.Hooks):
     """Generic hooks; subclasses override role_of / extra_call / check_ret."""
     MAX_DEPTH = 5
@@ -154,6 +161,8 @@ class StatusHooks(AIM.Hooks):
 
     # -- hooks
     def call(self, a, st, term, callee, args):
+        if AIM.INLINE_PRIVATE_HELPERS and helper_to_inline(a, st, callee):
+            return None         # second-chance mode: a private helper of the same file is interpreted, not treated as a source
         r = self.extra_call(a, st, term, callee, args)
         if r is not None:
             return r
